@@ -147,7 +147,7 @@ func vAssertK(c bool, label, knownID string, region bool) {
 	}
 	vAssert(c, label)
 }
-func vCover(label string)                                   {}
+func vCover(label string) {}
 func vObserve(tag string, vals ...any) {
 	if !vrtTraceOn {
 		return
@@ -181,15 +181,15 @@ func vYield() {
 	}
 	runtime.Gosched()
 }
-func vStep() int                                            { return int(vrtStepN.Add(1)) }
+func vStep() int { return int(vrtStepN.Add(1)) }
 func vJoinAll() {
 	vsHandoff()
 	vrtWG.Wait()
 	vsAfter()
 }
-func vSymbolic() bool                                       { return false }
-func vGoID() int                                            { return 0 }
-func vFuncID(f any) uintptr                                 { return reflect.ValueOf(f).Pointer() }
+func vSymbolic() bool       { return false }
+func vGoID() int            { return 0 }
+func vFuncID(f any) uintptr { return reflect.ValueOf(f).Pointer() }
 
 func vParam(name string, def int) int {
 	if v, ok := vrtParams[name]; ok {
